@@ -408,10 +408,26 @@ func polRejects(id int, v any) bool {
 	return false
 }
 
+// ZVOp / ZPOp: operator types used as typed nil pointers (`z`: methods with value receivers, so that calling
+// them through the nil pointer panics; `y`: pointer receivers, callable on nil). Neither may be stored as an operator.
+type ZVOp struct{ s string }
+
+func (o ZVOp) String() string  { return "zv" + o.s }
+func (o ZVOp) Context() string { return "zctx" }
+
+type ZPOp struct{ s string }
+
+func (o *ZPOp) String() string  { return "zp" }
+func (o *ZPOp) Context() string { return "zctx" }
+
 func opOf(s string) stackage.Operator {
 	switch {
 	case s == "-":
 		return nil
+	case s == "z":
+		return (*ZVOp)(nil)
+	case s == "y":
+		return (*ZPOp)(nil)
 	case s[0] == 'c':
 		n, _ := strconv.Atoi(s[1:])
 		return stackage.ComparisonOperator(n)
@@ -436,6 +452,10 @@ func opStr(o stackage.Operator) string {
 		return fmt.Sprintf("u%d:%s:%s", tv.ID, hx(tv.Str), hx(tv.Ctx))
 	case LOp:
 		return fmt.Sprintf("v%s:%s:%s", tv[2], hx(tv[0]), hx(tv[1]))
+	case *ZVOp:
+		return "z"
+	case *ZPOp:
+		return "y"
 	}
 	return "u?"
 }
